@@ -408,15 +408,14 @@ func (q *PathQuery) run() ([]*PathState, error) {
 				ended = true
 				break
 			}
+			tagged := false
 			if q.Event != nil && (st.armed || q.EventsBeforeFrom) {
 				if tag := q.Event(in); tag != "" {
 					st.Events = addEvent(st.Events, Event{in, tag})
-				} else if call, ok := in.(*ssa.Call); ok && !q.NoSummaries {
-					for _, e := range mustEvents(call, q.Event, 0) {
-						st.Events = addEvent(st.Events, e)
-					}
+					tagged = true
 				}
 			}
+			wasArmed := st.armed
 			if !st.armed && in == q.From {
 				st.armed = true
 				st.ArmedAt = len(st.Blocks) - 1
@@ -429,6 +428,15 @@ func (q *PathQuery) run() ([]*PathState, error) {
 					}
 					ended = true
 					break
+				}
+			}
+			// not explored inline: the events that every path of the callee passes are events of the call (added once —
+			// an inlined callee contributes its events itself)
+			if q.Event != nil && !tagged && (wasArmed || q.EventsBeforeFrom) {
+				if call, ok := in.(*ssa.Call); ok && !q.NoSummaries {
+					for _, e := range mustEvents(call, q.Event, 0) {
+						st.Events = addEvent(st.Events, e)
+					}
 				}
 			}
 			switch x := in.(type) {
